@@ -43,8 +43,40 @@ def r18_1_2(ctx: Ctx) -> None:
         cfg = CFG(func)
         withs = [n for n in walk_local(func) if isinstance(n, ast.With) and "multiprocessing.Pool" in txt(n.items[0].context_expr)]
         if not withs:
+            # is the pool kept beyond the call?  Workers are forked when the pool is created: a pool that outlives the
+            # call runs later batches against the parent's state (configuration, tables, caches) as it was back then
+            module = ctx.repo.modules[BASE].tree
+            top_names = {t.id for st in module.body if isinstance(st, (ast.Assign, ast.AnnAssign))
+                         for t in (st.targets if isinstance(st, ast.Assign) else [st.target]) if isinstance(t, ast.Name)}
+            helpers = {n.name: n for n in module.body if isinstance(n, ast.FunctionDef)}
+            scope = [func] + [helpers[call_name(c)] for c in calls(func) if call_name(c) in helpers and call_name(c) != qual]
+            kept = []
+            for fn in scope:
+                declared_global = {name for n in walk_local(fn) if isinstance(n, ast.Global) for name in n.names}
+                for st in walk_local(fn):
+                    if not (isinstance(st, ast.Assign) and isinstance(st.value, ast.Call) and txt(st.value.func).endswith("Pool")):
+                        continue
+                    for target in st.targets:
+                        base = target
+                        while isinstance(base, (ast.Subscript, ast.Attribute)):
+                            base = base.value
+                        if isinstance(base, ast.Name) and ((base is not target and base.id in top_names) or base.id in declared_global):
+                            kept.append((fn, st))
+            if kept:
+                fn, st = kept[0]
+                ctx.ob("R18.1", BASE, st, qual, "the pool is created for the batch", False,
+                       "the worker pool is created by the call that uses it and ended with it: workers are forked from the parent "
+                       "when the pool is created, so each batch sees the parent's state as a sequential run would",
+                       detail=f"`{stmt_key(st)[:70]}` in {fn.name} keeps the pool in module state: a later batch runs in workers "
+                       "forked before the configuration or data of the parent changed and returns what the earlier state gives",
+                       form=stmt_key(st)[:100])
+                continue
             ctx.cannot("R18.1", BASE, func, qual, "pool", "no `with multiprocessing.Pool(...)` block")
             continue
+        ctx.ob("R18.1", BASE, withs[0], qual, "the pool is created for the batch", True,
+               "the worker pool is created by the call that uses it and ended with it: workers are forked from the parent "
+               "when the pool is created, so each batch sees the parent's state as a sequential run would",
+               form=f"with {txt(withs[0].items[0].context_expr)}")
         pool = txt(withs[0].items[0].optional_vars)
         pool_calls = [c for c in calls(func) if isinstance(c.func, ast.Attribute) and txt(c.func.value) == pool]
         submit = [c for c in pool_calls if c.func.attr not in POOL_HOUSEKEEPING]  # type: ignore[attr-defined]
